@@ -14,10 +14,13 @@ CLAIMED = {
         "position pairs i<j, each once. The model functions are tied to /repo on every run by evaluating them "
         "inside Coq on every interval pair over a bounded range plus random assemblies and comparing with "
         "Fragment.overlaps/overlap_length/abuts/gap_between and Assembly.find_overlapping_fragments "
-        "(and asm-format --qc-overlaps stderr, on STDIN and on two input files, through an independent oracle).",
+        "C19_report_blocks: the STDERR report of asm-format --qc-overlaps (the command is inside the model, Model/AsmFormat.v) "
+        "is silent exactly when the scan finds no pair, else the header line and ONE block per pair of the scan, identical blocks "
+        "not merged; every invocation (STDIN, two files, same-named files, --name) is compared with the model byte for byte -- "
+        "written output and STDERR -- and parsed back by an independent oracle.",
         "Trusted: Coq kernel+VM; hand-written Gallina reading of fragment.py/assembly.py (scan order, None for "
         "empty); serializer; correspondence is differential on generated cases, not a proof about Python. "
-        "Print Assumptions: closed under the global context for all 8 theorems.",
+        "Print Assumptions: closed under the global context for all 9 theorems.",
         "Coq proof (lia, induction) + in-Coq vm_compute correspondence with /repo + brute-force oracle",
         "DESIGN.md 6/C19",
     ),
@@ -147,8 +150,12 @@ CLAIMED.update({
             "proved): parse_agp(format_agp a) = a, canonical text reproduced byte for byte, the same for TPF, AGP->TPF->parse = "
             "drop_tags, and for EVERY text: a successful parse has exactly one row per non-blank non-comment line. agp_wf allows "
             "empty tag columns between tags (only the last tag must be non-empty and not end in white space). " + CORR +
-            "Line-level corruptions are compared with the model (Ok/Err and value); asm-format itself is run on 1-3 input files "
-            "to -o FILE and to STDOUT (every row of every input must arrive).",
+            "Line-level corruptions are compared with the model (Ok/Err and value). THE COMMAND asm-format is inside the model "
+            "(Model/AsmFormat.v: cli, process_fh, report_overlaps, Fragment.__str__): C05_asm_format_identity -- on any number of "
+            "canonical AGP files, whatever names / --name / --qc-overlaps, what it writes is their concatenation byte for byte; "
+            "C05_asm_format_concatenates -- files are converted one by one in command-line order; C05_qc_flag_does_not_change_output. "
+            "The command is run on 1-3 input files to -o FILE, to STDOUT, with --qc-overlaps, and on STDIN with -i and --name; written "
+            "output and STDERR of every invocation are compared byte for byte with the model, and every row of every input must arrive (oracle).",
             NOTE + "Text iteration as with io.StringIO (LF-terminated lines); ASCII; int() as in Py/Dec.v.",
             "Coq proof (split/join/strip lemmas, fold invariant) + in-Coq correspondence on generated and corrupted texts",
             "DESIGN.md 6/C05"),
